@@ -64,21 +64,43 @@ def _is_int(x):
 
 
 def make_helpers(lim):
+    """Two modes.  JUSTIFIED (default): a helper computes the integer replacement only when the operands satisfy the
+    side conditions of its Float64 lemma and raises CutRangeError otherwise - this is the only mode whose 'Confirmed'
+    discharges an obligation.  SEARCH (lim.search = True): no side conditions; the helper returns the exact
+    real-valued / integer reading of the idiom (or evaluates the literal float expression when the operands are not
+    ints).  Nothing proved in search mode counts; it only PROPOSES counterexamples, and every proposal is replayed on
+    the real uncut code before it is reported.  Lemmas are needed to discharge, not to refute."""
+    import math
+
+    def search():
+        return bool(getattr(lim, 'search', False) or getattr(lim, 'mdiv_tight', False))
+
     def fc_rdiv(a, n):
-        # int(a / n + 0.5)  ==  (2a + n) // 2n      [lemma rdiv]
+        # int(a / n + 0.5)  ==  trunc((2a + n) / 2n)  (int() truncates toward zero)      [lemma rdiv]
         if not (_is_int(a) and _is_int(n)):
+            if search():
+                return int(a / n + 0.5)
             raise CutRangeError(f'rdiv operands not int: {type(a).__name__}, {type(n).__name__}')
-        if not (0 <= a < (1 << lim.rdiv_a_bits) and 1 <= n <= lim.rdiv_n_max):
+        if not search() and not (-(1 << lim.rdiv_a_bits) <= a < (1 << lim.rdiv_a_bits) and 1 <= n <= lim.rdiv_n_max):
             raise CutRangeError('rdiv operands out of lemma range')
-        return (2 * a + n) // (2 * n)
+        if not n >= 1:
+            return int(a / n + 0.5)
+        t = 2 * a + n
+        if t >= 0:
+            return t // (2 * n)
+        return -((-t) // (2 * n))
 
     def fc_rint(i):
-        # int(i + 0.5) == i  for a non-negative int i   [lemma rint]
+        # int(i + 0.5) == i for an int i >= 0, == i + 1 for an int i < 0 (truncation toward zero)      [lemma rint]
         if not _is_int(i):
+            if search():
+                return int(i + 0.5)
             raise CutRangeError(f'rint operand not int: {type(i).__name__}')
-        if not 0 <= i < (1 << lim.rint_bits):
+        if not search() and not -(1 << lim.rint_bits) < i < (1 << lim.rint_bits):
             raise CutRangeError('rint operand out of lemma range')
-        return i
+        if i >= 0:
+            return i
+        return i + 1
 
     def fc_ceil_mdiv(m, b, k):
         # math.ceil((m / b) * 1000): NOT equal to the exact ceiling in Float64 (off by one ulp-induced unit for some m),
@@ -86,6 +108,12 @@ def make_helpers(lim):
         # The helper returns an ARBITRARY member of that bucket (chosen by the slack NONDET[b], a symbolic input of the
         # harness): an over-approximation of the float result, sound for universally quantified properties.
         # Written without branches on symbolic values (sums of comparison results) so that CrossHair does not fork.
+        if search():
+            # the float result is modelled as the exact ceiling (what the float expression yields except for rare
+            # one-off cases inside a bucket); any divisor / factor / unit
+            if _is_int(m) and _is_int(b) and _is_int(k) and b > 0:
+                return -((-k * m) // b)
+            return math.ceil((m / b) * k)
         if not (_is_int(m) and _is_int(b) and k == 1000):
             raise CutRangeError('mdiv operands not int / factor not 1000')
         if b not in lim.mdiv_Bs or not 0 <= m < (1 << lim.mdiv_m_bits):
@@ -93,12 +121,6 @@ def make_helpers(lim):
         slack = nondet(b)
         if not (_is_int(slack) and 0 <= slack < (1 << 30)):
             raise CutRangeError('mdiv slack must be an int in [0, 2^30)')
-        if getattr(lim, 'mdiv_tight', False):
-            # SEARCH mode (not justified by a lemma, never used to discharge anything): the float result is modelled as
-            # the exact ceiling (what the float expression yields except for rare one-off cases inside a bucket).  Used
-            # only to look for a counterexample that replays on the real code after the bucket over-approximation
-            # produced one that does not.
-            return -((-1000 * m) // b)
         t = [-1] + [250 << p for p in range(lim.mdiv_pmax + 1)]      # t[p+1] = 250*2^p, t[0] = -1
         lo = -1                                                        # lower end (exclusive) of the bucket of m
         w = t[1] - t[0]                                                # width of the bucket of m
@@ -112,25 +134,37 @@ def make_helpers(lim):
 
     def fc_ceil_log2_div(x, k):
         # math.ceil(math.log2(x / 1000)) == least p with x <= 1000 * 2^p      [lemma clog2 + libm assumption]
-        if not (_is_int(x) and k == 1000):
-            raise CutRangeError('clog2 operand not int / divisor not 1000')
-        if not (1 <= x < (1 << lim.clog2_bits) and lim.clog2_bits <= 30):
-            raise CutRangeError('clog2 operand out of lemma range')
-        p = CLOG2_PLO
-        for q in range(CLOG2_PLO, CLOG2_PHI):
-            p = p + (((x << -q) > 1000) if q < 0 else (x > (1000 << q)))
+        ok = _is_int(x) and k == 1000
+        if ok and not search() and not (1 <= x < (1 << lim.clog2_bits) and lim.clog2_bits <= 30):
+            ok = False
+        if not ok and not search():
+            raise CutRangeError('clog2 operand not int / divisor not 1000 / out of lemma range')
+        if not (_is_int(x) and _is_int(k) and k > 0):
+            return math.ceil(math.log2(x / k))
+        if search() and not x >= 1:
+            return math.ceil(math.log2(x / k))       # raises ValueError like the real code
+        plo, phi = (CLOG2_PLO, CLOG2_PHI) if not search() else (-40, 50)
+        p = plo
+        for q in range(plo, phi):
+            p = p + (((x << -q) > k) if q < 0 else (x > (k << q)))
         return p
 
     def fc_pow2_scale(p, k):
         # int(2**p * 1000) == 1000 * 2^p for an int p in [-3, PHI]      [lemma pow2scale; p < 0 goes through floats]
-        if not (_is_int(p) and k == 1000):
-            raise CutRangeError('pow2scale exponent not int / factor not 1000')
-        if not -3 <= p <= CLOG2_PHI:
-            raise CutRangeError('pow2scale exponent out of lemma range')
+        if not (_is_int(p) and k == 1000 and -3 <= p <= CLOG2_PHI):
+            if search():
+                return int(2 ** p * k)
+            raise CutRangeError('pow2scale exponent not int / factor not 1000 / out of lemma range')
         v = 0
         for q in range(-3, CLOG2_PHI + 1):
             v = v + (p == q) * ((1000 << q) if q >= 0 else (1000 >> -q))
         return v
+
+    def fc_imax(a, b):
+        # max(a, b) on two ints, without a branch: b + [a > b] * (a - b)      [lemma imax, integers]
+        if not (_is_int(a) and _is_int(b)):
+            return max(a, b)
+        return b + (a > b) * (a - b)
 
     def fc_await(aw):
         # `await aw` when the awaitable completes without suspending
@@ -150,14 +184,12 @@ def make_helpers(lim):
             except StopAsyncIteration:
                 return
 
-    def fc_imax(a, b):
-        # max(a, b) on two ints, without a branch: b + [a > b] * (a - b)      [lemma imax, integers]
-        if not (_is_int(a) and _is_int(b)):
-            return max(a, b)
-        return b + (a > b) * (a - b)
-
     def fc_scale(x, k, b):
         # int((x / 1000) * b) == x * b // 1000 for x = 250 * 2^j      [lemma scale]
+        if search():
+            if _is_int(x) and _is_int(b) and _is_int(k) and k > 0 and x >= 0 and b >= 0:
+                return x * b // k                   # trunc(x * b / k): the real-valued reading
+            return int((x / k) * b)
         if not (_is_int(x) and _is_int(b) and k == 1000):
             raise CutRangeError('scale operands not int / divisor not 1000')
         if b not in lim.scale_Bs:
@@ -172,8 +204,10 @@ def make_helpers(lim):
     def fc_ceil_div(a, d):
         # math.ceil(a / 2^i / 2^j / ...) == -(-a // 2^(i+j+...))      [lemma cdiv]
         if not _is_int(a):
+            if search():
+                return math.ceil(a / d)
             raise CutRangeError('cdiv operand not int')
-        if not 0 <= a < (1 << lim.cdiv_bits):
+        if not search() and not 0 <= a < (1 << lim.cdiv_bits):
             raise CutRangeError('cdiv operand out of lemma range')
         return -(-a // d)
 
@@ -464,27 +498,38 @@ def _bv(v):
     return f'(_ bv{v} 64)'
 
 
+def _sbv(v):
+    return _bv(v % (1 << 64))
+
+
 def lemma_rdiv(n, lo, hi, goal=True):
-    """0 <= lo <= a < hi, divisor n constant:  to_sbv_RTZ(fp.add(fp.div(a, n), 0.5)) == (2a+n) div 2n."""
+    """lo <= a < hi (signed), divisor n constant:  to_sbv_RTZ(fp.add(fp.div(a, n), 0.5)) == trunc((2a+n) / 2n)
+    (bvsdiv truncates toward zero, like Python's int())."""
     t = _HDR + '(declare-const a (_ BitVec 64))\n'
-    t += f'(assert (bvuge a {_bv(lo)}))\n(assert (bvult a {_bv(hi)}))\n'
+    t += f'(assert (bvsge a {_sbv(lo)}))\n(assert (bvslt a {_sbv(hi)}))\n'
     t += f'(define-fun n () (_ BitVec 64) {_bv(n)})\n'
     t += f'(define-fun q () Float64 (fp.div RNE ({_F} RNE a) ({_F} RNE n)))\n'
     t += f'(define-fun y () Float64 (fp.add RNE q ({_F} RNE 0.5)))\n'
     t += '(define-fun r () (_ BitVec 64) ((_ fp.to_sbv 64) RTZ y))\n'
-    t += f'(define-fun e () (_ BitVec 64) (bvudiv (bvadd (bvmul {_bv(2)} a) n) (bvmul {_bv(2)} n)))\n'
+    t += f'(define-fun e () (_ BitVec 64) (bvsdiv (bvadd (bvmul {_bv(2)} a) n) (bvmul {_bv(2)} n)))\n'
     if goal:
         t += '(assert (not (= r e)))\n'
     return t
 
 
 def lemma_rdiv_mul(n, lo, hi, goal=True):
-    """Same statement as lemma_rdiv with the integer quotient e introduced by its defining inequalities
-    2n*e <= 2a+n < 2n*e + 2n (no bit-vector divider; cvc5 decides the whole range in one query)."""
+    """Same statement as lemma_rdiv with the truncated quotient e introduced by its defining inequalities (no bit-vector
+    divider; cvc5 decides a whole half-range in one query):  num = 2a+n >= 0: 2n*e <= num < 2n*e + 2n;
+    num < 0: e <= 0 and 2n*(-e) <= -num < 2n*(-e) + 2n."""
     t = _HDR + '(declare-const a (_ BitVec 64))\n(declare-const e (_ BitVec 64))\n'
-    t += f'(assert (bvuge a {_bv(lo)}))\n(assert (bvult a {_bv(hi)}))\n(assert (bvult e {_bv(1 << 40)}))\n'
+    t += f'(assert (bvsge a {_sbv(lo)}))\n(assert (bvslt a {_sbv(hi)}))\n'
+    t += f'(assert (bvslt e {_bv(1 << 40)}))\n(assert (bvsgt e {_sbv(-(1 << 40))}))\n'
     t += f'(define-fun num () (_ BitVec 64) (bvadd (bvmul {_bv(2)} a) {_bv(n)}))\n'
-    t += f'(assert (bvule (bvmul {_bv(2 * n)} e) num))\n(assert (bvult num (bvadd (bvmul {_bv(2 * n)} e) {_bv(2 * n)})))\n'
+    n2 = _bv(2 * n)
+    pos = f'(and (bvsge e {_bv(0)}) (bvsle (bvmul {n2} e) num) (bvslt num (bvadd (bvmul {n2} e) {n2})))'
+    neg = (f'(and (bvsle e {_bv(0)}) (bvsle (bvmul {n2} (bvneg e)) (bvneg num)) '
+           f'(bvslt (bvneg num) (bvadd (bvmul {n2} (bvneg e)) {n2})))')
+    t += f'(assert (ite (bvsge num {_bv(0)}) {pos} {neg}))\n'
     t += f'(define-fun q () Float64 (fp.div RNE ({_F} RNE a) ({_F} RNE {_bv(n)})))\n'
     t += f'(define-fun y () Float64 (fp.add RNE q ({_F} RNE 0.5)))\n'
     t += '(define-fun r () (_ BitVec 64) ((_ fp.to_sbv 64) RTZ y))\n'
@@ -493,14 +538,32 @@ def lemma_rdiv_mul(n, lo, hi, goal=True):
     return t
 
 
+def lemma_rdiv_mul_neg(n, hi, goal=True):
+    """lemma_rdiv_mul on the negative half -hi <= a < 0, written over ap = -a > 0 and ep = -e >= 0:
+    2ap <= n: e = 0;  else 2n*ep <= 2ap - n < 2n*ep + 2n."""
+    t = _HDR + '(declare-const ap (_ BitVec 64))\n(declare-const ep (_ BitVec 64))\n'
+    t += f'(assert (bvuge ap {_bv(1)}))\n(assert (bvule ap {_bv(hi)}))\n(assert (bvult ep {_bv(1 << 40)}))\n'
+    t += '(define-fun a () (_ BitVec 64) (bvneg ap))\n'
+    n2 = _bv(2 * n)
+    t += f'(define-fun d () (_ BitVec 64) (bvsub (bvmul {_bv(2)} ap) {_bv(n)}))\n'
+    t += (f'(assert (ite (bvule (bvmul {_bv(2)} ap) {_bv(n)}) (= ep {_bv(0)}) '
+          f'(and (bvule (bvmul {n2} ep) d) (bvult d (bvadd (bvmul {n2} ep) {n2})))))\n')
+    t += f'(define-fun q () Float64 (fp.div RNE ({_F} RNE a) ({_F} RNE {_bv(n)})))\n'
+    t += f'(define-fun y () Float64 (fp.add RNE q ({_F} RNE 0.5)))\n'
+    t += '(define-fun r () (_ BitVec 64) ((_ fp.to_sbv 64) RTZ y))\n'
+    if goal:
+        t += '(assert (not (= r (bvneg ep))))\n'
+    return t
+
+
 def lemma_rint(bits, goal=True):
-    """0 <= i < 2^bits: to_sbv_RTZ(fp.add(to_fp(i), 0.5)) == i."""
+    """-2^bits < i < 2^bits (signed): to_sbv_RTZ(fp.add(to_fp(i), 0.5)) == (i if i >= 0 else i + 1)."""
     t = _HDR + '(declare-const i (_ BitVec 64))\n'
-    t += f'(assert (bvult i {_bv(1 << bits)}))\n'
+    t += f'(assert (bvslt i {_bv(1 << bits)}))\n(assert (bvsgt i {_sbv(-(1 << bits))}))\n'
     t += f'(define-fun y () Float64 (fp.add RNE ({_F} RNE i) ({_F} RNE 0.5)))\n'
     t += '(define-fun r () (_ BitVec 64) ((_ fp.to_sbv 64) RTZ y))\n'
     if goal:
-        t += '(assert (not (= r i)))\n'
+        t += f'(assert (not (= r (ite (bvsge i {_bv(0)}) i (bvadd i {_bv(1)})))))\n'
     return t
 
 
@@ -585,18 +648,21 @@ def lemma_jobs(rule, lim, timeout_s=120):
     if rule == 'rdiv':
         for n in range(1, lim.rdiv_n_max + 1):
             hi = 1 << lim.rdiv_a_bits
-            desc = 'Float64: int(a / n + 0.5) == (2a+n)//(2n)'
+            desc = 'Float64: int(a / n + 0.5) == trunc((2a+n)/(2n)), a of either sign'
             if n & (n - 1) == 0:                                  # power-of-two divisor: one easy query
-                jobs.append((f'rdiv n={n} a in [0,{hi})', lemma_rdiv(n, 0, hi), lemma_rdiv(n, 0, hi, False), desc))
+                jobs.append((f'rdiv n={n} a in [-{hi},{hi})', lemma_rdiv(n, -hi, hi), lemma_rdiv(n, -hi, hi, False), desc))
             else:
-                # cvc5 decides the multiplication form over the whole range; z3 needs the divider form split by the
-                # binary exponent of a (second opinion)
-                ranges = [(0, 1 << 16)] + [(1 << k, 1 << (k + 1)) for k in range(16, lim.rdiv_a_bits)]
+                # cvc5 decides the multiplication form over a whole half-range; z3 needs the divider form split by the
+                # binary exponent of |a| (second opinion)
+                pos = [(0, 1 << 16)] + [(1 << k, 1 << (k + 1)) for k in range(16, lim.rdiv_a_bits)]
+                neg = [(-h, -lo) for lo, h in pos]
                 jobs.append((f'rdiv n={n} a in [0,{hi})', lemma_rdiv_mul(n, 0, hi), lemma_rdiv_mul(n, 0, hi, False), desc,
-                             'cvc5', [('z3new', lemma_rdiv(n, lo, h)) for lo, h in ranges if lo < hi]))
+                             'cvc5', [('z3new', lemma_rdiv(n, lo, h)) for lo, h in pos]))
+                jobs.append((f'rdiv n={n} a in [-{hi},0)', lemma_rdiv_mul_neg(n, hi), lemma_rdiv_mul_neg(n, hi, False), desc,
+                             'cvc5', [('z3new', lemma_rdiv(n, lo, h)) for lo, h in neg]))
     elif rule == 'rint':
-        jobs.append((f'rint i < 2^{lim.rint_bits}', lemma_rint(lim.rint_bits), lemma_rint(lim.rint_bits, False),
-                     'Float64: int(i + 0.5) == i for int i >= 0'))
+        jobs.append((f'rint |i| < 2^{lim.rint_bits}', lemma_rint(lim.rint_bits), lemma_rint(lim.rint_bits, False),
+                     'Float64: int(i + 0.5) == i for int i >= 0, == i + 1 for int i < 0'))
     elif rule == 'mdiv':
         for b in lim.mdiv_Bs:
             for p in range(lim.mdiv_pmax + 2):
